@@ -19,7 +19,17 @@
 
    litep2p specifics kept: the static key is fresh per session (NoiseContext::new), the identity
    payload (key, signature over DOMAIN ++ static key) is assembled at session creation, the
-   dialer sends message 3 together with accepting. *)
+   dialer sends message 3 together with accepting, the listener reads message 3 only for the
+   message 2 it wrote itself (event Answered), and every session mixes ITS OWN prologue into the
+   handshake hash (`pro`, an arbitrary assignment of prologues to sessions: empty for TCP and
+   WebSocket, "libp2p-webrtc-noise:" ++ fingerprints for WebRTC).
+
+   Results: secrecy of all honest secrets and of the session keys, authentication in the standard
+   form, and AGREEMENT derived from a ciphertext-origin invariant (`encok`: every ciphertext the
+   attacker can ever deliver is under a key it knows or was written by an honest session as its
+   message 2 or 3) — no no-forgery hypothesis: an accepting dialer talked to one listener session of
+   P that answered its own ephemeral key under the same prologue; an accepting listener talked to a
+   dialer session of P that completed accepting exactly this listener with the same key. *)
 From Coq Require Import List NArith Bool Lia.
 Import ListNotations.
 Open Scope N_scope.
@@ -55,6 +65,8 @@ Inductive event :=
 | NewD (a e s : N)                              (* a dialer session of agent a with secrets e, s *)
 | NewL (a e s : N)                              (* a listener session *)
 | Signed (a : N) (t : term)                     (* agent a signed t in an honest session *)
+| Answered (a e s y : N)                        (* the listener session (a, e, s) wrote message 2 in
+                                                   answer to a received g^y *)
 | AcceptD (a e s : N) (P rs : N) (K : term)     (* the dialer session completed: peer P, remote
                                                    static g^rs, session key K *)
 | AcceptL (a e s : N) (P rs : N) (K : term).
@@ -154,12 +166,12 @@ Definition msg3_expected (a e s y rs P : N) : term := TPair (l_c3 a e s y rs) (l
       valid (Signed a (signed_part s) :: NewL a e s :: tr)
   | v_L2 tr a e s y :                       (* the listener answers some received g^y *)
       valid tr -> In (NewL a e s) tr ->
-      valid (Send (msg2 a e s y) :: tr)
+      valid (Send (msg2 a e s y) :: Answered a e s y :: tr)
   | v_D3 tr a e s y rs P :                  (* the dialer reads message 2, writes 3, accepts P *)
       valid tr -> In (NewD a e s) tr -> knows tr (msg2_expected e y rs P) ->
       valid (AcceptD a e s P rs (d_key e s y rs) :: Send (msg3 a e s y rs P) :: tr)
   | v_L4 tr a e s y rs P :                  (* the listener reads message 3, accepts P *)
-      valid tr -> In (NewL a e s) tr -> In (Send (msg2 a e s y)) tr ->
+      valid tr -> In (NewL a e s) tr -> In (Answered a e s y) tr ->
       knows tr (msg3_expected a e s y rs P) ->
       valid (AcceptL a e s P rs (l_key e s y rs) :: tr).
 
@@ -221,7 +233,7 @@ Definition msg3_expected (a e s y rs P : N) : term := TPair (l_c3 a e s y rs) (l
     - destruct U as [[= <-]|U]; [exact (knows_pub tr IH t K) | exact (IH u U)].
     - destruct U as [[= <-]|[U|[U|U]]]; try discriminate; [exact I | exact (IH u U)].
     - destruct U as [U|[U|U]]; try discriminate. exact (IH u U).
-    - destruct U as [[= <-]|U]; [|exact (IH u U)].
+    - destruct U as [[= <-]|[U|U]]; try discriminate; [|exact (IH u U)].
       unfold msg2, l_c1, l_c2. cbn [pub]. pose proof (payload_pub a s). cbn [pub] in *. tauto.
     - destruct U as [U|[[= <-]|U]]; try discriminate; [|exact (IH u U)].
       unfold msg3, d_c3, d_c4. pose proof (payload_pub a s). cbn [pub] in *. tauto.
@@ -243,7 +255,7 @@ Definition msg3_expected (a e s y rs P : N) : term := TPair (l_c3 a e s y rs) (l
       injection U as <- <- <-. split; [apply Fe|apply Fs].
     - destruct U as [[U|[U|U]]|[U|[U|U]]]; try discriminate; try (apply (IH a e s); auto; fail).
       injection U as <- <- <-. split; [apply Fe|apply Fs].
-    - apply (IH a e s). destruct U as [[U|U]|[U|U]]; try discriminate; auto.
+    - apply (IH a e s). destruct U as [[U|[U|U]]|[U|[U|U]]]; try discriminate; auto.
     - apply (IH a e s). destruct U as [[U|[U|U]]|[U|[U|U]]]; try discriminate; auto.
     - apply (IH a e s). destruct U as [[U|U]|[U|U]]; try discriminate; auto.
   Qed.
@@ -292,7 +304,7 @@ Definition msg3_expected (a e s y rs P : N) : term := TPair (l_c3 a e s y rs) (l
       + do 2 right. apply (IH a e s). auto.
       + injection U as <- <- <-. left. reflexivity.
       + do 2 right. apply (IH a e s). auto.
-    - right. apply (IH a e s). destruct U as [[U|U]|[U|U]]; try discriminate; auto.
+    - do 2 right. apply (IH a e s). destruct U as [[U|[U|U]]|[U|[U|U]]]; try discriminate; auto.
     - do 2 right. apply (IH a e s). destruct U as [[U|[U|U]]|[U|[U|U]]]; try discriminate; auto.
     - right. apply (IH a e s). destruct U as [[U|U]|[U|U]]; try discriminate; auto.
   Qed.
@@ -313,12 +325,12 @@ Definition msg3_expected (a e s y rs P : N) : term := TPair (l_c3 a e s y rs) (l
       apply (sigok_mono tr); [do 3 apply incl_tl; apply incl_refl|]. exact (IH u U).
     - destruct U as [U|[U|U]]; try discriminate.
       apply (sigok_mono tr); [do 2 apply incl_tl; apply incl_refl|]. exact (IH u U).
-    - destruct U as [[= <-]|U].
-      + apply (sigok_mono tr); [apply incl_tl, incl_refl|].
+    - destruct U as [[= <-]|[U|U]]; try discriminate.
+      + apply (sigok_mono tr); [do 2 apply incl_tl; apply incl_refl|].
         pose proof (new_session_signed tr V a e s (or_intror I)) as S.
         pose proof (payload_sigok tr a s S) as PS.
         pose proof (sigok_dh tr e y). pose proof (sigok_dh tr s y). cbn in PS |- *. tauto.
-      + apply (sigok_mono tr); [apply incl_tl, incl_refl|]. exact (IH u U).
+      + apply (sigok_mono tr); [do 2 apply incl_tl; apply incl_refl|]. exact (IH u U).
     - destruct U as [U|[[= <-]|U]]; try discriminate.
       + apply (sigok_mono tr); [do 2 apply incl_tl; apply incl_refl|].
         pose proof (new_session_signed tr V a e s (or_introl I)) as S.
@@ -347,8 +359,9 @@ Definition msg3_expected (a e s y rs P : N) : term := TPair (l_c3 a e s y rs) (l
       + injection U as <- <-. exists e0, s0. split; [reflexivity|]. right. right. left. reflexivity.
       + destruct (IH a u U) as (e & s & E & O). exists e, s. split; [exact E|].
         destruct O; [left|right]; do 2 right; assumption.
-    - destruct U as [U|U]; try discriminate.
-      destruct (IH a u U) as (e & s & E & O). exists e, s. split; [exact E|]. destruct O; [left|right]; right; assumption.
+    - destruct U as [U|[U|U]]; try discriminate.
+      destruct (IH a u U) as (e & s & E & O). exists e, s. split; [exact E|].
+      destruct O; [left|right]; do 2 right; assumption.
     - destruct U as [U|[U|U]]; try discriminate.
       destruct (IH a u U) as (e & s & E & O). exists e, s. split; [exact E|].
       destruct O; [left|right]; do 2 right; assumption.
@@ -392,9 +405,9 @@ Definition msg3_expected (a e s y rs P : N) : term := TPair (l_c3 a e s y rs) (l
     - destruct U as [U|[U|U]]; try discriminate.
       destruct (IH _ _ _ _ _ _ U) as (tr0 & y & I0 & R). exists tr0, y.
       split; [do 2 apply incl_tl; exact I0|]. destruct R as (R1 & R2 & R3 & R4 & R5). repeat split; auto. do 2 right. exact R5.
-    - destruct U as [U|U]; try discriminate.
+    - destruct U as [U|[U|U]]; try discriminate.
       destruct (IH _ _ _ _ _ _ U) as (tr0 & y & I0 & R). exists tr0, y.
-      split; [apply incl_tl; exact I0|]. destruct R as (R1 & R2 & R3 & R4 & R5). repeat split; auto. right. exact R5.
+      split; [do 2 apply incl_tl; exact I0|]. destruct R as (R1 & R2 & R3 & R4 & R5). repeat split; auto. do 2 right. exact R5.
     - destruct U as [U|[U|U]]; try discriminate.
       + injection U as <- <- <- <- <- <-. exists tr, y0.
         split; [do 2 apply incl_tl; apply incl_refl|]. repeat split; auto. right. left. reflexivity.
@@ -408,7 +421,7 @@ Definition msg3_expected (a e s y rs P : N) : term := TPair (l_c3 a e s y rs) (l
   Lemma acceptL_origin tr :
     valid tr -> forall a e s P rs K, In (AcceptL a e s P rs K) tr ->
     exists tr0 y, incl tr0 tr /\ valid tr0 /\ In (NewL a e s) tr0 /\
-                  In (Send (msg2 a e s y)) tr0 /\
+                  In (Answered a e s y) tr0 /\
                   knows tr0 (msg3_expected a e s y rs P) /\ K = l_key e s y rs.
   Proof.
     induction 1 as [|tr t V IH K0|tr a0 e0 s0 V IH Fe Fs|tr a0 e0 s0 V IH Fe Fs|tr a0 e0 s0 y0 V IH I|
@@ -421,8 +434,8 @@ Definition msg3_expected (a e s y rs P : N) : term := TPair (l_c3 a e s y rs) (l
       destruct (IH _ _ _ _ _ _ U) as (tr0 & y & I0 & R). exists tr0, y. split; [do 3 apply incl_tl; exact I0|exact R].
     - destruct U as [U|[U|U]]; try discriminate.
       destruct (IH _ _ _ _ _ _ U) as (tr0 & y & I0 & R). exists tr0, y. split; [do 2 apply incl_tl; exact I0|exact R].
-    - destruct U as [U|U]; try discriminate.
-      destruct (IH _ _ _ _ _ _ U) as (tr0 & y & I0 & R). exists tr0, y. split; [apply incl_tl; exact I0|exact R].
+    - destruct U as [U|[U|U]]; try discriminate.
+      destruct (IH _ _ _ _ _ _ U) as (tr0 & y & I0 & R). exists tr0, y. split; [do 2 apply incl_tl; exact I0|exact R].
     - destruct U as [U|[U|U]]; try discriminate.
       destruct (IH _ _ _ _ _ _ U) as (tr0 & y & I0 & R). exists tr0, y. split; [do 2 apply incl_tl; exact I0|exact R].
     - destruct U as [U|U].
@@ -509,7 +522,7 @@ Definition msg3_expected (a e s y rs P : N) : term := TPair (l_c3 a e s y rs) (l
   Lemma used_names tr x : In x (flat_map names tr) -> used tr x.
   Proof.
     intros I. apply in_flat_map in I as (ev & E & X).
-    destruct ev as [t|a e s|a e s|a t|a e s P rs K|a e s P rs K]; cbn [names] in X; try contradiction.
+    destruct ev as [t|a e s|a e s|a t|a e s y|a e s P rs K|a e s P rs K]; cbn [names] in X; try contradiction.
     - exists a, e, s. split; [left; exact E|]. destruct X as [<-|[<-|[]]]; auto.
     - exists a, e, s. split; [right; exact E|]. destruct X as [<-|[<-|[]]]; auto.
   Qed.
@@ -559,7 +572,7 @@ Definition msg3_expected (a e s y rs P : N) : term := TPair (l_c3 a e s y rs) (l
       injection U as <- <- <-. exact Ne.
     - destruct U as [[U|[U|U]]|[U|[U|U]]]; try discriminate; try (apply (IH a e s); auto; fail).
       injection U as <- <- <-. exact Ne.
-    - apply (IH a e s). destruct U as [[U|U]|[U|U]]; try discriminate; auto.
+    - apply (IH a e s). destruct U as [[U|[U|U]]|[U|[U|U]]]; try discriminate; auto.
     - apply (IH a e s). destruct U as [[U|[U|U]]|[U|[U|U]]]; try discriminate; auto.
     - apply (IH a e s). destruct U as [[U|U]|[U|U]]; try discriminate; auto.
   Qed.
@@ -607,12 +620,29 @@ Definition msg3_expected (a e s y rs P : N) : term := TPair (l_c3 a e s y rs) (l
       + pose proof (owner_unique tr (NewL P' e2 s) _ s V O ND) as Q.
         cbn in Q. discriminate Q; auto.
   Qed.
+  (* only listener sessions answer *)
+  Lemma answered_origin tr :
+    valid tr -> forall a e s y, In (Answered a e s y) tr -> In (NewL a e s) tr.
+  Proof.
+    induction 1 as [|tr t V IH K|tr a0 e0 s0 V IH Fe Fs|tr a0 e0 s0 V IH Fe Fs|tr a0 e0 s0 y0 V IH I|
+                    tr a0 e0 s0 y0 rs P V IH I K|tr a0 e0 s0 y0 rs P V IH I I2 K]; intros a e s y U.
+    - destruct U.
+    - right. apply (IH a e s y). destruct U as [U|U]; try discriminate; auto.
+    - do 3 right. apply (IH a e s y). destruct U as [U|[U|[U|U]]]; try discriminate; auto.
+    - do 2 right. apply (IH a e s y). destruct U as [U|[U|U]]; try discriminate; auto.
+    - do 2 right. destruct U as [U|[U|U]]; try discriminate.
+      + injection U as <- <- <- <-. exact I.
+      + exact (IH a e s y U).
+    - do 2 right. apply (IH a e s y). destruct U as [U|[U|U]]; try discriminate; auto.
+    - right. apply (IH a e s y). destruct U as [U|U]; try discriminate; auto.
+  Qed.
+
   (* ================================================================================ *)
   (* ---- where ciphertexts come from: transcript agreement ---- *)
   (* a ciphertext under a key the attacker cannot know was made by an honest session: by a
      listener session writing message 2, or by a dialer session writing message 3 *)
   Definition honest_enc (tr : list event) (c : term) : Prop :=
-    (exists a e s y, In (NewL a e s) tr /\ (c = l_c1 e s y \/ c = l_c2 a e s y)) \/
+    (exists a e s y, In (Answered a e s y) tr /\ (c = l_c1 e s y \/ c = l_c2 a e s y)) \/
     (exists a e s y rs P, In (AcceptD a e s P rs (d_key e s y rs)) tr /\
                           (c = d_c3 e s y rs P \/ c = d_c4 a e s y rs P)).
 
@@ -655,14 +685,14 @@ Definition msg3_expected (a e s y rs P : N) : term := TPair (l_c3 a e s y rs) (l
 
   Ltac atoms := repeat (cbn [encok]; first [exact I | apply encok_dh | split]).
 
-  Lemma l_c1_encok tr a e s y : In (NewL a e s) tr -> encok tr (l_c1 e s y).
+  Lemma l_c1_encok tr a e s y : In (Answered a e s y) tr -> encok tr (l_c1 e s y).
   Proof.
     intros N0. unfold l_c1. cbn [encok]. split.
     - right. left. exists a, e, s, y. split; [exact N0|left; reflexivity].
     - unfold l_k1, l_h1, hm1, h0, ck0, empty. atoms.
   Qed.
 
-  Lemma l_c2_encok tr a e s y : In (NewL a e s) tr -> encok tr (l_c2 a e s y).
+  Lemma l_c2_encok tr a e s y : In (Answered a e s y) tr -> encok tr (l_c2 a e s y).
   Proof.
     intros N0. pose proof (l_c1_encok tr a e s y N0) as C1.
     unfold l_c2. cbn [encok]. split; [|split; [|split]].
@@ -715,13 +745,13 @@ Definition msg3_expected (a e s y rs P : N) : term := TPair (l_c3 a e s y rs) (l
       apply (encok_mono tr); [do 3 apply incl_tl; apply incl_refl|]. exact (IH u U).
     - destruct U as [U|[U|U]]; try discriminate.
       apply (encok_mono tr); [do 2 apply incl_tl; apply incl_refl|]. exact (IH u U).
-    - destruct U as [[= <-]|U].
+    - destruct U as [[= <-]|[U|U]]; try discriminate.
       + (* message 2 of the listener session (a, e, s) *)
-        apply (encok_mono tr); [apply incl_tl, incl_refl|].
+        assert (A : In (Answered a e s y) (Send (msg2 a e s y) :: Answered a e s y :: tr)) by (right; left; reflexivity).
         unfold msg2. cbn [encok]. split; [exact I|]. split.
-        * exact (l_c1_encok tr a e s y I0).
-        * exact (l_c2_encok tr a e s y I0).
-      + apply (encok_mono tr); [apply incl_tl, incl_refl|]. exact (IH u U).
+        * exact (l_c1_encok _ a e s y A).
+        * exact (l_c2_encok _ a e s y A).
+      + apply (encok_mono tr); [do 2 apply incl_tl; apply incl_refl|]. exact (IH u U).
     - destruct U as [U|[[= <-]|U]]; try discriminate.
       + (* message 3 of the dialer session (a, e, s): the ciphertexts it read are the attacker's *)
         set (tr' := AcceptD a e s P rs (d_key e s y rs) :: Send (msg3 a e s y rs P) :: tr).
@@ -746,12 +776,12 @@ Definition msg3_expected (a e s y rs P : N) : term := TPair (l_c3 a e s y rs) (l
   (* AUTHENTICATION WITH AGREEMENT, dialer.  If an honest dialer session (ephemeral e) completes
      believing in an uncompromised P, then the ephemeral key g^y and the static key g^rs it received
      belong to ONE listener session of P — (P, y, rs) is a listener session in the trace —, that
-     session was created with the same prologue, and the message 2 the dialer accepted is,
-     component for component, the message that session builds in answer to this dialer's g^e. *)
+     session HAS WRITTEN message 2 in answer to this very dialer's g^e, it was created with the same
+     prologue, and the message 2 the dialer accepted is, component for component, that message. *)
   Theorem dialer_agreement tr a e s P rs K :
     valid tr -> In (AcceptD a e s P rs K) tr -> ~ bad P ->
-    exists y, K = d_key e s y rs /\ In (NewL P y rs) tr /\ pro e = pro y /\
-              msg2_expected e y rs P = msg2 P y rs e.
+    exists y, K = d_key e s y rs /\ In (NewL P y rs) tr /\ In (Answered P y rs e) tr /\
+              pro e = pro y /\ msg2_expected e y rs P = msg2 P y rs e.
   Proof.
     intros V A G.
     destruct (acceptD_origin tr V _ _ _ _ _ _ A) as (tr0 & y & I0 & V0 & N0 & K0 & -> & _).
@@ -771,6 +801,7 @@ Definition msg3_expected (a e s y rs P : N) : term := TPair (l_c3 a e s y rs) (l
       assert (M : msg2_expected e y rs P = msg2 P y rs e).
       { unfold msg2_expected, msg2, d_c2, l_c2, d_h2, l_h2, d_c1, l_c1, d_h1, l_h1, d_k2, l_k2, d_k1, l_k1.
         rewrite Ep, (dh_comm e y), (dh_comm e rs). reflexivity. }
+      pose proof (answered_origin tr0 V0 _ _ _ _ N1) as NL.
       repeat split; auto.
     - exfalso. unfold d_c3, payload in E. discriminate E.
     - exfalso. unfold d_c4, d_key, d_k2, d_k1, ck0 in E. discriminate E.
@@ -823,7 +854,7 @@ Definition nobody (_ : N) : Prop := False.
 Definition honest_trace (pro : N -> list N) : list event :=
   [AcceptL 20 3 4 10 2 (l_key 3 4 1 2);
    AcceptD 10 1 2 20 4 (d_key 1 2 3 4); Send (msg3 pro 10 1 2 3 4 20);
-   Send (msg2 pro 20 3 4 1);
+   Send (msg2 pro 20 3 4 1); Answered 20 3 4 1;
    Signed 20 (signed_part 4); NewL 20 3 4;
    Send (TPub 1); Signed 10 (signed_part 2); NewD 10 1 2].
 
